@@ -13,31 +13,43 @@ PROP = dict(search_rounds=1,
     exhaustive=dict(quick=False, thorough=False),
     rule="per generated topology (as for C13; labels none / one line / two lines / empty second line / three parts; "
          "sub-element styles with quotes, <, >, &, control bytes, non-ASCII, U+FFFE/U+FFFF) two calls of GenerateCompositeSVGdoc + GenerateCompositeSVG with: "
-         "render switches default (labels+ids) or random; base SVG from 28 documents - 10 valid (minimal, namespaced, nested with text and entities, "
-         "multi-line attributes, style block, CDATA + character references, DOCTYPE + quotes/control characters in attribute values + attribute order, "
-         "internal DTD subset + text in the root + standalone declaration, self-closing root), 18 invalid (empty, blank, unclosed, mismatched, plain text, "
-         "unquoted attribute, trailing garbage; no element at all: XML declaration only, declaration + newline, newline, one / two comments, declaration + "
-         "comment, DOCTYPE only - ParseXML returns err==nil with Root==nil; unknown entity, XML 1.1) - each combined with visible components; availability "
-         "map nil / empty / all non-zero / all zero / random subset incl. foreign ids; the record carries the encoding/xml token kinds of the base (input of "
-         "model and Spec), what the real xmldom.ParseXML returned (err / noroot / root), every appended element (name, ordered attributes, text, and the "
-         "text node.XML() printed for it), and four observed flags (tree comparison of the base part; encoding/xml token stream of the base contained in "
-         "order in that of doc.XML() and doc.XMLPretty(); both printed documents re-parse with one root and no duplicate attribute; both end with the "
-         "printed appended elements). Plus svg.esc records: the go-xmldom printer on a node whose attribute value and text are arbitrary bytes (invalid "
-         "UTF-8, control bytes, non-characters). Non-trivial = a document with at least one appended element / a non-empty printed string; distinct = "
-         "distinct record text",
-    trusted_base=["encoding/xml's tokenizer (Decoder.Token / RawToken): the token kinds of the base document enter model and Spec as data; the harness "
-                  "refuses a record whose token summary is not the one encoding/xml gives for its base",
-                  "go-xmldom's parsing of the base document into a tree and its printing of the base part: 'keeps the base content' and well-formedness of "
-                  "the WHOLE printed document are observed on the implementation (flags kept, kept2, wellformed, tail), not proved",
+         "render switches default (labels+ids) or random; base SVG: 30% one of 10 fixed valid documents without lossy feature (minimal, namespaced, nested with "
+         "text and entities, multi-line attributes, style block, CDATA + character references, DOCTYPE + quotes/control characters in attribute values, internal "
+         "DTD subset + text in the root + standalone declaration, self-closing root), 15% any of 27 fixed documents incl. 17 invalid (empty, blank, unclosed, "
+         "mismatched, plain text, unquoted attribute, trailing garbage; no element at all: declaration only, newline, comments, DOCTYPE only - ParseXML returns "
+         "err==nil with Root==nil; unknown entity), 12% one of 19 fixed valid documents with a lossy feature (comments inside/before/after the root, mixed "
+         "content, text + CDATA, prefixed attributes and elements, xlink:href + href, xml:space, processing instructions inside/after/behind the DOCTYPE, two "
+         "instructions), 5% one of 7 valid documents the decoder rejects (8-bit encodings, XML 1.1, internal entities), 38% a document from a grammar of valid "
+         "XML (harness/svgbase.go: optional declaration in 3 spellings or a leading stylesheet instruction, misc, optional DOCTYPE plain / PUBLIC / with "
+         "internal subset, root with xmlns / xmlns:p declarations, elements nested to depth 3 with 0-3 attributes (entities, character references, both quote "
+         "styles, line breaks, non-ASCII; with probability 1/4 prefixed by a declared prefix or xml:), content items element / character data with entities and "
+         "surrounding blanks / comment / processing instruction / CDATA / blanks; 35% of them 'clean': no comment, prefix, inner instruction, and character data "
+         "or one CDATA section only as the last thing in an element) - each combined with visible components; availability map nil / empty / all non-zero / all "
+         "zero / random subset incl. foreign ids; the record carries the encoding/xml token stream of the base (Token() with the names of RawToken(): input of "
+         "model and Spec; the harness refuses a record whose summary is not the one encoding/xml gives for its base), the harness's lossy-feature flags F: "
+         "(comment, mixed-text, ns-prefix, pi, dup-attr, rej-*; the driver answers NE H0:feature-flags when they differ from the Spec's features of the token "
+         "stream), what the real xmldom.ParseXML returned, every appended element (name, ordered attributes, text, printed text), and four observed flags (tree "
+         "comparison of the base part; encoding/xml token stream of the base contained in order in that of doc.XML() and doc.XMLPretty(); both printed documents "
+         "re-parse with one root and no duplicate attribute; both end with the printed appended elements), which the model predicts too (EQ includes them). Plus "
+         "svg.esc records: the go-xmldom printer on a node whose attribute value and text are arbitrary bytes. Corpus: the 26 fixed lossy / rejected documents, "
+         "the rootless bases, printer bytes. Non-trivial = a document with at least one appended element / a non-empty printed string; distinct = distinct record text",
+    trusted_base=["encoding/xml's tokenizer (Decoder.Token / RawToken): the token stream of the base document enters model and Spec as data (incl. that Token() "
+                  "never delivers an end tag without an open element); the harness refuses a record whose token summary is not the one encoding/xml gives for its base",
+                  "go-xmldom at byte level: the model of its parse/print round trip (Model/XmldomBase.lean) works on token streams; that the printed bytes "
+                  "re-tokenize to the modelled tokens (escaping/unescaping of values and text, <?target inst?>, <!directive>) is checked by correspondence of the "
+                  "observed flags kept2 / wellformed on every record, not proved; flags kept (tree comparison) and tail are observed only",
+                  "the harness's judgement 'valid document that the default decoder rejects' (rej-encoding / rej-version / rej-entity): encoding/xml with a "
+                  "Latin-1 CharsetReader / version 1.1 read as 1.0 / Decoder.Entity filled from the <!ENTITY name \"value\"> declarations of the internal subset",
                   "json.Unmarshal of the topology text (C14: the text is ToJSON() output, parsed back to the same topology)",
                   "fmt.Sprintf(\"%03f\") of the float32 rotation and of rotation+90 enter model and Spec as a table supplied with each record"],
     assumptions=["coordinates and sizes small enough that Go int arithmetic does not overflow",
-                 "base documents on which the unchanged library loses content (comments, mixed content, namespace prefixes, processing instructions; list "
-                 "lossyBases in harness/svgicon.go, `bin/harness c15 -tier findings`) are reported as findings and are not generated"],
+                 "base documents that encoding/xml tokenizes although they are not well-formed XML (two top-level elements, character data outside the root, a "
+                 "directive inside it, an attribute written twice) are outside the domain (Spec.SvgBase.XmlDoc) and are not generated; the model covers them "
+                 "(a second top-level element is not printed)"],
 )
 
 CLAIM = dict(
-    text="Lean theorems (Props/C15.lean, 22 audited). PROVED for every topology, availability map (nil, empty, any entries), render switches, rotation-format "
+    text="Lean theorems (Props/C15.lean, 36 audited). PROVED for every topology, availability map (nil, empty, any entries), render switches, rotation-format "
          "table, base token stream and ALL byte strings as labels/styles: (1) C15.svg_appended_holds - the elements GenerateCompositeSVGdoc appends satisfy "
          "Spec.Svg.checkAppended: each is well-formed as printed (name rect/circle/text; attribute names XML names and pairwise distinct; the printed text is "
          "<name a=\"v\".. /> or <name a=\"v\"..>content</name> whose values/content contain no raw <, no raw & (only the five predefined entities and "
@@ -49,18 +61,35 @@ CLAIM = dict(
          "non-zero/non-empty, one text per label line (1 or 2), optional development texts, the id text - no other element carrying an id; masked components "
          "contribute nothing (masked_contribute_nothing, one_main_shape_per_visible, main_shape_geometry, shape_rotation, transform_present_iff, label_count_*, "
          "id_text_present). (2) C15.bad_svg_gives_empty - when the encoding/xml token stream of the base ends in an error, is empty, or contains no start "
-         "element (only a declaration / comments / white space: ParseXML returns err==nil, Root==nil) the modelled xmldom.Parse returns err or noRoot and the "
-         "result is none (the string wrapper returns \"\"); parse_root_iff_valid, valid_base_gives_document: a root is found exactly for the valid bases. "
-         "(3) C15.svg_verdict_is_observation / svg_holds - the verdict of the whole predicate Spec.Svg.checkSVG on the model's output is, for a valid base, "
-         "exactly the verdict on the four OBSERVED flags, and 'holds' for an invalid base. (4) label_positions, label_spacing, text_transform - not fixed by "
-         "the property text but by the code: label line a of cnt at x=X, y=Y+27+30a-(cnt*30)/2, lines 30 apart, texts rotate with the component (labels of "
-         "tall types by 90 degrees more). OBSERVED on the implementation only (every record): the base document's content is kept (tree comparison and "
-         "encoding/xml token-stream containment), the whole printed documents re-parse with one root and no duplicate attribute, and end with the printed "
-         "appended elements. The same predicate is evaluated on the real library's documents; model = code (parser outcome, every element, attribute order, "
-         "text and every printed byte) is checked on generated cases.",
-    note=TB + "'Keeps the base document's content' and well-formedness of the part of the document that comes from the base rest on go-xmldom/encoding/xml and "
-         "are observed, not proved; on the unchanged library they FAIL for valid base documents with comments, mixed content, namespace prefixes "
-         "(xlink:href, xml:space; duplicate attributes can result) or several processing instructions - reported findings, excluded from the generator.",
+         "element the modelled xmldom.Parse returns err or noRoot and the result is none (the string wrapper returns \"\"); parse_root_iff_valid, "
+         "valid_base_gives_document; rejected_valid_gives_empty: the same for a valid document the decoder rejects, where the predicate then says "
+         "valid-base-rejected:<class>. (3) THE BASE DOCUMENT through the go-xmldom parse/print round trip, modelled on encoding/xml token streams "
+         "(Model/XmldomBase.lean: prefixes dropped, every character-data token overwrites the element's text which is printed after the children, only the last "
+         "processing instruction kept and printed first, comments ignored, a second top-level element unreachable): C15.kept_iff_no_lossy_feature - for every "
+         "token stream that is a document (matching tags, one top-level element, no character data outside it, directives in the prolog) the base printed back "
+         "alone keeps its content (Spec.SvgBase.keepsContent: the base's non-blank tokens, names as written, in order within the printed tokens) IF AND ONLY IF "
+         "it has none of four features: a comment, a prefixed element/attribute name, a processing instruction behind another token, non-blank character data "
+         "that is not the last thing in its element; lossless_roundtrip - then the printed token stream equals the base's content; kept_of_no_lossy_feature - "
+         "and it stays kept whatever elements are appended; comment_lost, prefix_lost, pi_lost - with any appended elements the content is NOT kept when the "
+         "feature is present; mixed_text_lost - the same for mixed text when nothing is appended, and mixed_text_kept_by_coincidence: a concrete witness that "
+         "with an appended element the token-containment test can be satisfied although text moved (exact guard: nothing appended); "
+         "wellformed_iff_no_attr_collision - the printed document has an attribute name twice in a start tag exactly when a base tag has two attributes with "
+         "the same local name (attr_collision_needs_prefix: only possible with prefixes). (4) C15.svg_model_verdict / model_failure_is_classified / "
+         "svg_model_holds_of_no_feature - the verdict of the whole predicate Spec.Svg.checkSVG on the model's output with the model's own flags is "
+         "not-wellformed:duplicate-attribute / holds / base-content:<feature>; it is never the plain base-content or wellformed, and it is 'holds' for every "
+         "document without the five features; svg_verdict_is_observation / svg_holds - for arbitrary observed flags the verdict is exactly the verdict on the "
+         "flags. (5) label_positions, label_spacing, text_transform - not fixed by the property text but by the code. CHECKED on the real library (every "
+         "record): model = code incl. parser outcome, every element, attribute order, text, every printed byte of the appended elements AND the flags kept2 / "
+         "wellformed computed with encoding/xml on the real documents; the Spec evaluated on the implementation's output. KNOWN FINDINGS (known_findings.json, "
+         "8 classes, status known): on the unchanged library the property is FALSE for valid base documents with a comment, mixed content, a namespace prefix, "
+         "a processing instruction that is not first (content lost), two attributes with one local name (output not well-formed), and three kinds of valid "
+         "documents are rejected (8-bit encoding, XML 1.1, internal entity): the check prints KNOWN-FINDING for exactly these classes (clause name derived by the "
+         "Spec from the base's token stream AND the harness's feature flag of the record must both match) and reports every other violation, in particular "
+         "content lost on a base without these features (plain base-content) and any difference between code and model.",
+    note=TB + "The go-xmldom round trip is modelled at token level; that printed bytes re-tokenize to the modelled tokens rests on correspondence (flags on every "
+         "record), not proof. 'kept' (tree comparison) and 'tail' are observed only. The eight known-finding classes are caused by the third-party XML "
+         "library (go-xmldom over encoding/xml); no repair short of replacing it.",
     technique="Lean 4 proof (attribute calculus over SetAttributeValue, induction over components / sub elements / label lines; byte-level recogniser of "
-              "XML attribute values and content vs. the escape function, by units per decoded rune) + model/implementation correspondence",
+              "XML attribute values and content vs. the escape function; stack-transducer model of the xmldom round trip on token streams with an "
+              "invariant-carrying induction and a length/sublist argument) + model/implementation correspondence",
 )
